@@ -1,6 +1,6 @@
 //! C16 — flatten / transform adapters commute with building; attributes interpolate in t.
 //!
-//! One builder program (`begin/line/quad/cubic/end` with `n` = 0..4 custom attributes, a
+//! One builder program (`begin/line/quad/cubic/end` with `n` = 0..10 custom attributes, a
 //! tolerance and an affine map) is pushed through the REAL adapters; which ones depends on the
 //! family:
 //!
@@ -760,7 +760,9 @@ fn gen_input(rng: &mut Rng) -> Input {
         _ => Gen::Degenerate,
     };
     let lattice = g == Gen::Lattice || g == Gen::Degenerate;
-    let n = rng.below(5) as usize;
+    // 0..=10 custom attributes; 8 is a boundary in the code (`for_each_flattened` switches from a
+    // 16-slot stack buffer to a heap buffer at `num_attributes <= 8`), so 5..=9 carry weight
+    let n = *rng.pick(&[0usize, 1, 2, 3, 4, 5, 6, 7, 8, 8, 9, 9, 10, 1, 3, 5, 7, 8]);
     let tol = gen_tol(rng, lattice);
     let (m, mname) = gen_xf(rng, lattice);
     let pt = |rng: &mut Rng| -> Point {
@@ -1135,6 +1137,18 @@ fn main() {
             ],
         ),
     ];
+    // attribute counts around the stack/heap switch of `for_each_flattened` (`<= 8`: 16-slot stack
+    // buffer holding from- and to-attributes side by side)
+    let mut wit = wit;
+    for n in [5usize, 8, 9, 10] {
+        let a = |k: f32| -> Vec<f32> { (0..n).map(|i| k + i as f32).collect() };
+        wit.push((
+            "attribute-buffer-boundary",
+            n,
+            0.1,
+            vec![Op::B(p(0., 0.), a(1.)), Op::Q(p(5., 10.), p(10., 0.), a(20.)), Op::C(p(12., 4.), p(16., -4.), p(20., 0.), a(-3.)), Op::L(p(0., -5.), a(0.5)), Op::E(true)],
+        ));
+    }
     for (name, n, tol, prog) in wit {
         for fam in ["wit", "it", "pb"] {
             let inp = Input { n, tol, m: Transform::new(2.0, 1.0, -1.0, 3.0, 5.0, -7.0), prog: prog.clone(), tag: format!("witness {}", name) };
